@@ -111,6 +111,10 @@ def orchestrator_oracles(ops, cls_size, cls_align=8):
     pending = {} # borrowing iterator -> (vector register, its state when the iterator was created)
     for i, op in enumerate(ops):
         n, a = op.name, op.args
+        # --- a refused allocator request must end in the standard allocation-error abort: never a normal
+        #     return, an ordinary panic or a crash
+        if "Z" in op.events and op.result is not None and op.result != "abort":
+            out.append(("allocfail-outcome", i, "`%s`: the allocator refused a request but the operation ended with `%s`" % (op.line, op.result)))
         if not a or op.result is None:
             continue
         # --- storage stability across a borrowing iterator: if the final contents fit the capacity the
@@ -152,15 +156,16 @@ def orchestrator_oracles(ops, cls_size, cls_align=8):
                 out.append(("align-req", i, "%s as_ptr mod %d = %d after `%s`" % (reg, req[reg], h["al"] % req[reg], op.line)))
         # --- serde: the up-front reservation never asks for more than 1024 elements
         if n in ("deserialize", "deserialize_in_place") and len(a) >= 3:
-            first = [e for e in op.events if e[0] in "AR"][:1]
-            for e in first:
+            nitems = len([x for x in a[2][3:-1].split(",") if x and x not in ("E", "N")])
+            for j, e in enumerate([e for e in op.events if e[0] in "AR"]):
                 sz = int(e.split()[1]) if e[0] == "A" else int(e.split()[3])
                 al = int(e.split()[2])
-                lim = ((24 + al - 1) // al) * al + 1024 * cls_size + al
-                nitems = len([x for x in a[2][3:-1].split(",") if x and x != "E"])
-                if sz > lim and nitems <= 1024:
-                    out.append(("serde-prealloc", i, "`%s`: first allocator request of %d bytes exceeds header + 1024 elements (%d)" % (op.line[:60], sz, lim)))
-            if before is not None and after is not None and after[1] > max(before[1], 2047):
+                # no request may be sized by the claimed length: at most header + max(1024, twice what has really arrived + 8) elements
+                room = 1024 if j == 0 else max(1024, 2 * (nitems + (before[0] if before else 0)) + 8)
+                lim = ((24 + al - 1) // al) * al + room * cls_size + al
+                if sz > lim:
+                    out.append(("serde-prealloc", i, "`%s`: allocator request #%d of %d bytes exceeds header + %d elements (%d)" % (op.line[:60], j + 1, sz, room, lim)))
+            if before is not None and after is not None and after[1] > max(before[1], 2047, 2 * (nitems + before[0]) + 8):
                 out.append(("serde-prealloc", i, "`%s`: capacity %d -> %d" % (op.line[:60], before[1], after[1])))
         # --- a vector that owns a block has a non-null data pointer: the raw round trip must not be skipped
         if n in ("raw_part", "raw_parts") and res == "none" and hbefore is not None:
